@@ -22,7 +22,7 @@ META = {
             "settings (and the cell layout of all 48 classes), rejects three broken variants and "
             "finds the counterexample to the literal property in the model; the real mi_bin is "
             "called on the entire domain (every byte size; every MIN_ALIGNMENT-multiple x every "
-            "alignment for 5 VM settings) and the real table is dumped, and TLC judges every real "
+            "alignment for 5 VM settings, 8 in the thorough tier) and the real table is dumped, and TLC judges every real "
             "(size, alignment, bin, table[bin]) tuple. Fresh-block cell lists come from a real "
             "MarkSweep instance for all 48 classes. Exhaustive enumeration of a finite domain is "
             "the strongest level there is for this property.",
@@ -53,12 +53,12 @@ def _mk_keyfn(max_bin_size):
             if single and size is not None and size <= max_bin_size < size + pad:
                 return "mi_bin:padded-size-exceeds-largest-class"
         if ev == "BV":
-            return "sizeclass:BV:%s:lmin=%s:lmax=%s:la=%s:s0=%s" % (
-                tag, row.get("lmin"), row.get("lmax"), row.get("la"), row.get("s0"))
+            return "sizeclass:BV:%s:lmin=%s:lmax=%s:la=%s" % (
+                tag, row.get("lmin"), row.get("lmax"), row.get("la"))
         if ev == "BS":
-            return "sizeclass:BS:%s:s0=%s" % (tag, row.get("s0"))
+            return "sizeclass:BS:%s" % tag
         if ev == "FB":
-            return "sizeclass:FB:%s:bin=%s" % (tag, row.get("bin"))
+            return "sizeclass:FB:%s" % tag
         return "sizeclass:%s:%s" % (ev, tag)
     return keyfn
 
@@ -96,20 +96,25 @@ def run(ctx):
     exe = ctx.build("d_arith")
     quick = ctx.tier == "quick"
     # ---- specification leg (whole finite domain)
-    ctx.tlc_mc("SizeClass.tla", "MC_SizeClass.cfg", spec_dir=sd, require_actions=["Step"],
-               timeout=1500)
-    r = ctx.tlc_mc("SizeClass.tla", "MC_SizeClass_literal.cfg", spec_dir=sd, expect_violation=True)
-    ctx.cov["model_counterexample_to_literal_property"] = bool(r["violated"])
-    muts = ["MC_SizeClass_mutant_table.cfg", "MC_SizeClass_mutant_bin.cfg",
-            "MC_SizeClass_mutant_block.cfg"]
-    for m in muts:
-        ctx.tlc_mc("SizeClass.tla", m, spec_dir=sd, expect_violation=True)
+    # (VERIF_ARITH_SKIP_MC=1 skips it: only for mutation experiments on the code, which the
+    # specification leg does not depend on)
+    if not os.environ.get("VERIF_ARITH_SKIP_MC"):
+        ctx.tlc_mc("SizeClass.tla", "MC_SizeClass.cfg", spec_dir=sd, require_actions=["Step"],
+                   timeout=1500)
+        r = ctx.tlc_mc("SizeClass.tla", "MC_SizeClass_literal.cfg", spec_dir=sd, expect_violation=True)
+        ctx.cov["model_counterexample_to_literal_property"] = bool(r["violated"])
+        muts = ["MC_SizeClass_mutant_table.cfg", "MC_SizeClass_mutant_bin.cfg",
+                "MC_SizeClass_mutant_block.cfg"]
+        for m in muts:
+            ctx.tlc_mc("SizeClass.tla", m, spec_dir=sd, expect_violation=True)
     # ---- conformance leg
     t1 = os.path.join(ctx.work, "sizeclass.ndjson")
-    rc, o = ctx.run([exe, "sizeclass", "--out", t1])
+    rc, o = ctx.run([exe, "sizeclass", "--out", t1] + ([] if quick else ["--morevms"]))
     if rc != 0:
         raise vf.ToolError("d_arith sizeclass failed: rc=%s\n%s" % (rc, o[-2000:]))
     t2 = os.path.join(ctx.work, "freshblock.ndjson")
+    if os.path.exists(t2):
+        os.remove(t2)
     rc, o = ctx.run([exe, "freshblock", "--out", t2, "--rounds", "1" if quick else "4"])
     if rc != 0 or not os.path.exists(t2):
         # the process died inside mmtk-core (not in a recorded call): a violation, not a tool error
